@@ -346,7 +346,11 @@ def call(d, nodes):
     import bigtree
     if d["fn"] == "prune":
         pp = d["paths"][0] if d.get("as_str") and len(d["paths"]) == 1 else list(d["paths"])
-        return bigtree.prune_tree(nodes[0], pp, exact=d["exact"], sep=d["sep"], max_depth=d["md"])
+        res = bigtree.prune_tree(nodes[0], pp, exact=d["exact"], sep=d["sep"], max_depth=d["md"])
+        if isinstance(pp, list) and pp != list(d["paths"]):
+            # the list of paths belongs to the caller (who may go on using it, e.g. on a tree with another separator)
+            raise RuntimeError(f"prune_tree modified the caller's list of paths in place: {pp}")
+        return res
     return bigtree.get_subtree(nodes[d["start"]], d["q"], max_depth=d["md"])
 
 
